@@ -61,7 +61,11 @@ class View:
         mid, meth, par, err = (self.attr(m, n) for n in ("id", "method", "params", "error"))
         code = z3.Select(Val.dvals(err), z3.StringVal("code"))
         has_code = z3.Select(Val.dkeys(err), z3.StringVal("code"))
-        obj_ok = z3.And(V.is_obj(m), o > 0, o < 1_000_000, z3.Select(self.I.ctx.cls0, o) == self.msg_cid,
+        # dict well-formedness, ground-instantiated at the one key the code looks up in params
+        pt = z3.StringVal("progressToken")
+        par_wf = z3.Implies(V.is_dict(par), z3.And(Val.dsize(par) >= 0,
+                                                   z3.Implies(z3.Select(Val.dkeys(par), pt), Val.dsize(par) >= 1)))
+        obj_ok = z3.And(V.is_obj(m), o > 0, o < 1_000_000, z3.Select(self.I.ctx.cls0, o) == self.msg_cid, par_wf,
                         z3.Or(V.is_none(mid), V.is_int(mid), V.is_str(mid)),
                         z3.Or(V.is_none(meth), V.is_str(meth)),
                         z3.Or(V.is_none(par), V.is_dict(par)),
@@ -118,6 +122,8 @@ class SendMessageSetup(Contract):
     """Builds the symbolic call  send_message(rs, ws, method, params, timeout=..., message_id=...,
     cancellation_token=..., progress_callback=...)  for one configuration."""
     key = SEND_KEY
+    zero_time_sends = False
+    concurrent_receivers = False          # C18 rely: other waiters may consume items between my receives
 
     def __init__(self, with_token=False, with_callback=False, with_params="any", id_mode="given"):
         self.with_token = with_token
@@ -129,12 +135,16 @@ class SendMessageSetup(Contract):
         return f"token={int(self.with_token)},cb={int(self.with_callback)},id={self.id_mode}"
 
     def setup(self, I):
+        I.sm = self
         self.view = View(I)
         env = TrackingReadStream()
         env.on_consume = self.on_consume
-        self.I = I
+        if self.concurrent_receivers:
+            env.pre_receive = self.others_consume
         self.rs = E.make_read_stream(I, "rs", env)
-        self.ws = E.make_write_stream(I, "ws")
+        wenv = E.WriteStreamEnv(zero_time=self.zero_time_sends)
+        wenv.name = "WriteStreamZ" if self.zero_time_sends else "WriteStream"
+        self.ws = E.make_write_stream(I, "ws", wenv)
         self.incoming = Val.items(E.gfield(I, self.rs, "incoming"))
         self.method = I.fresh("method")
         I.assume(V.is_str(self.method))
@@ -159,28 +169,38 @@ class SendMessageSetup(Contract):
         if self.with_token:
             cd = I.ctx.repo_class(I.ctx.repo.klass(f"{SEND}::CancellationToken"))
             c0 = I.fresh_bool("cancelled0")
-            self.token = I.new_object(cd, {"_cancelled": V.VBool(c0), "_callbacks": V.VList([])})
+            self.cancelled0 = c0
+            # ghost t_cancel (virtual time of the flip) lives on the token object so loop havoc covers it
+            self.token = I.new_object(cd, {"_cancelled": V.VBool(c0), "_callbacks": V.VList([]),
+                                           "t_cancel": V.VReal(I.st.now)})
             kwargs["cancellation_token"] = self.token
-            I.ghost["t_cancel"] = I.st.now                     # meaningful only once cancelled
-            I.ghost["cancelled0"] = c0
             I.checkpoint_hooks = [self.token_rely]
         self.cb = None
         if self.with_callback:
             self.cb = E.make_callback(I)
+            I.set_attr(self.cb, "expected", V.VList([]), record=False)     # ghost: expected progress calls
             kwargs["progress_callback"] = self.cb
-        I.ghost["expected_calls"] = z3.Empty(V.SeqVal)
-        I.ghost["t_entry"] = I.st.now
+        self.t_entry = I.st.now
         self.kwargs = kwargs
         return [self.rs, self.ws, self.method, self.params], kwargs
 
     # ---- environment hooks
     def on_consume(self, I, recv, m):
         I.assume(self.view.well_typed(m))
+        I.ghost["consumed_this_iteration"] = m
         tok = self.progress_token(I)
         if tok is not None:
-            exp = I.ghost["expected_calls"]
+            exp = Val.items(E.gfield(I, self.cb, "expected"))
             hit = self.view.is_progress_for(m, tok)
-            I.ghost["expected_calls"] = z3.If(hit, z3.Concat(exp, z3.Unit(self.view.progress_args(m))), exp)
+            I.set_attr(self.cb, "expected",
+                       V.VList(z3.If(hit, z3.Concat(exp, z3.Unit(self.view.progress_args(m))), exp)))
+
+    def others_consume(self, I, recv):
+        """rely (C18): between two of my receives other waiters on the same stream may have consumed items"""
+        pos = Val.i(E.gfield(I, recv, "pos"))
+        skip = I.fresh_int("skipped_by_others")
+        I.assume(skip >= 0)
+        I.set_attr(recv, "pos", V.VInt(pos + skip))
 
     def progress_token(self, I):
         """the progress token the call put into params._meta (None if no callback)"""
@@ -192,13 +212,16 @@ class SendMessageSetup(Contract):
         return V.VStr(us[0])
 
     def token_rely(self, I):
-        """another task may cancel the token while this one is suspended"""
+        """another task may cancel the token while this one is suspended (never un-cancel); the flip
+        happened at some instant of the suspension"""
         cur, _ = I.get_field(self.token, "_cancelled")
         flip = I.fresh_bool("flip")
-        new = z3.Or(V.truthy(cur), flip)
-        I.set_attr(self.token, "_cancelled", V.VBool(new))
         was = V.truthy(cur)
-        I.ghost["t_cancel"] = z3.If(z3.And(z3.Not(was), flip), I.st.now, I.ghost["t_cancel"])
+        I.set_attr(self.token, "_cancelled", V.VBool(z3.Or(was, flip)))
+        tc = I.fresh_real("t_flip")
+        I.assume(z3.And(tc >= getattr(I, "prev_now", I.st.now), tc <= I.st.now))
+        old, _ = I.get_field(self.token, "t_cancel")
+        I.set_attr(self.token, "t_cancel", z3.If(z3.And(z3.Not(was), flip), V.VReal(tc), old))
 
     # ---- helpers for postconditions
     def req_id(self, I):
@@ -213,34 +236,52 @@ class SendMessageSetup(Contract):
     def written(self, I):
         return Val.items(E.gfield(I, self.ws, "written"))
 
+    def attempted(self, I):
+        return Val.items(E.gfield(I, self.ws, "attempted"))
+
     def pos(self, I):
         return Val.i(E.gfield(I, self.rs, "pos"))
 
+    def token_cancelled(self, I):
+        c, _ = I.get_field(self.token, "_cancelled")
+        return V.truthy(c)
 
-def await_loop_invariant(contract_getter):
+    def t_cancel(self, I):
+        t, _ = I.get_field(self.token, "t_cancel")
+        return Val.r(t)
+
+
+def await_loop_invariant(prefix="C01"):
     """Invariant of `while True` in _await_response (ordinal 0), used when inlined into send_message."""
 
     def inv(I, phase):
-        c = contract_getter(I)
+        c = I.sm
         view = c.view
         req_id = c.req_id(I)
         pos = c.pos(I)
         inc = c.incoming
         k = z3.Int("k!inv")
-        name = "C01._await_response.loop"
+        name = f"{prefix}._await_response.loop"
         clauses = []
-        # no consumed message is a match (otherwise the loop would have returned)
-        clauses.append((f"{name}.no_consumed_message_matches",
-                        z3.ForAll([k], z3.Implies(z3.And(k >= 0, k < pos), z3.Not(view.is_match(inc[k], req_id))))))
-        clauses.append((f"{name}.position_in_bounds", z3.And(pos >= 0, pos <= z3.Length(inc))))
-        # exactly the request has been written (plus nothing else while no cancellation happened)
-        w = c.written(I)
         if phase == "entry":
-            I.ghost["written_at_loop_entry"] = w
+            I.ghost["written_at_loop_entry"] = c.written(I)
+            I.ghost["attempted_at_loop_entry"] = c.attempted(I)
+        if phase == "head":
+            I.ghost["consumed_this_iteration"] = None
+            I.ghost["checkpoints_at_head"] = I.ghost.get("checkpoints", 0)
+        if not c.concurrent_receivers:
+            # no consumed message is a match (otherwise the loop would have returned)
+            clauses.append((f"{name}.no_consumed_message_matches",
+                            z3.ForAll([k], z3.Implies(z3.And(k >= 0, k < pos),
+                                                      z3.Not(view.is_match(inc[k], req_id))))))
+        clauses.append((f"{name}.position_in_bounds", z3.And(pos >= 0, pos <= z3.Length(inc))))
+        # exactly the request has been written; nothing else was even attempted
+        w = c.written(I)
         clauses.append((f"{name}.only_the_request_written",
-                        z3.And(z3.Length(w) == 1, w == I.ghost["written_at_loop_entry"])))
+                        z3.And(z3.Length(w) == 1, w == I.ghost["written_at_loop_entry"],
+                               c.attempted(I) == I.ghost["attempted_at_loop_entry"])))
         extra = getattr(c, "extra_invariant", None)
         if extra is not None:
-            clauses.extend(extra(I, phase))
+            clauses.extend(extra(I, phase, name))
         return clauses
     return inv
